@@ -29,7 +29,7 @@ from fractions import Fraction
 
 from mc.kernel.runner import Acc
 from mc.ref import stn as ref
-from mc.checks.mcutil import Hang, deadline, tj, fj
+from mc.checks.mcutil import Hang, arm, deadline, disarm, tj, fj
 
 PROPERTY = "C25"
 LEVEL = "model_checking"
@@ -49,6 +49,7 @@ ASSUMPTIONS = [
 ]
 
 EV = "ABCD"
+WATCHDOG_S = 2.0
 HALF = (1, 2)
 
 
@@ -58,15 +59,13 @@ def configs(tier):
     rat = (-2, -1, (-1, 2), 0, (1, 2), 1, 2)
     if tier == "quick":
         return [
-            {"events": 3, "bounds": ints, "depth": 3, "copies": 1, "last": "full"},
-            {"events": 3, "bounds": ints, "depth": 4, "copies": 1, "last": "adds"},
+            {"events": 3, "bounds": ints, "depth": 4, "copies": 1, "last": "full"},
         ]
     return [
         {"events": 3, "bounds": ints, "depth": 4, "copies": 1, "last": "full"},
         {"events": 3, "bounds": rat, "depth": 4, "copies": 1, "last": "adds"},
         {"events": 4, "bounds": ints, "depth": 4, "copies": 2, "last": "adds"},
         {"events": 3, "bounds": ints, "depth": 5, "copies": 1, "last": "adds"},
-        {"events": 4, "bounds": rat, "depth": 5, "copies": 1, "last": "adds"},
     ]
 
 
@@ -226,21 +225,24 @@ def judge(hist):
     w = World()
     before = None
     was_unsat = False
-    for i, op in enumerate(hist):
-        if i == len(hist) - 1:
-            a = w.active
-            before = (observe(w.nets[a], w.evs[a]), canon_net(w.nets[a]))
-            was_unsat = not ref.consistent(w.evs[a], w.cons[a])
-        try:
-            with deadline():
-                w.apply(op)
-        except Hang:
-            out.append(("hang:" + op[0], "%s did not return within the watchdog time" % (op,)))
-            return out, w, {"outcome": "hang"}
-        except Exception as e:
-            out.append(("raises:%s:%s" % (op[0], type(e).__name__), "%s raised %r" % (op, e)))
-            return out, w, {"outcome": "raises"}
-    info = {}
+    i = 0
+    arm(WATCHDOG_S)
+    try:
+        for i, op in enumerate(hist):
+            if i == len(hist) - 1:
+                a = w.active
+                before = (observe(w.nets[a], w.evs[a]), canon_net(w.nets[a]))
+                was_unsat = not before[0][0]  # the prefix is a judged BFS node itself
+            w.apply(op)
+    except Hang:
+        out.append(("hang:" + hist[i][0], "%s did not return within the watchdog time" % (hist[i],)))
+        return out, w, {"outcome": "hang"}
+    except Exception as e:
+        out.append(("raises:%s:%s" % (hist[i][0], type(e).__name__), "%s raised %r" % (hist[i], e)))
+        return out, w, {"outcome": "raises"}
+    finally:
+        disarm()
+    info = {"was_unsat": was_unsat}
     copy_last = bool(hist) and hist[-1][0] == "copy"
     for i, net in enumerate(w.nets):
         evs, cons = w.evs[i], w.cons[i]
@@ -407,8 +409,17 @@ def shape(hist):
     return ";".join(out)
 
 
+MAX_MINIMISED = 40  # per shard and sub-oracle; BFS order reports the shortest histories first
+
+
 def report(acc, hist, viols):
     for sub, what in viols:
+        acc.count("violating_histories")
+        n = acc.__dict__.setdefault("_minimised", {})
+        n[sub] = n.get(sub, 0) + 1
+        if n[sub] > MAX_MINIMISED:
+            acc.count("violating_histories_not_minimised")
+            continue
         small = minimise(hist, sub)
         acc.violation("%s|%s" % (sub, shape(small)), what + " (found on history %s)" % (list(hist),), {"hist": tj(small), "found_on": tj(hist)})
 
@@ -475,7 +486,7 @@ def shards(tier, seed):
     for level, cfg in enumerate(configs(tier)):
         out.append({"level": level, "cfg": cfg, "prefix": True})
         sd = [h for h, _u in seeds(cfg)]
-        k = 48 if len(sd) >= 48 else max(1, len(sd))
+        k = min(len(sd), 48 if tier == "quick" else 160) or 1
         buckets = [[] for _ in range(k)]
         for i, h in enumerate(sd):
             buckets[(i + seed) % k].append(tj(h))
@@ -529,7 +540,7 @@ def run_shard(shard, tier, seed):
             if len(hist) >= stop:
                 continue
             unsat = not w.nets[w.active].check_stn()
-            if unsat and hist and _was_unsat_before(hist):
+            if unsat and hist and (info["was_unsat"] if info is not None else _was_unsat_before(hist)):
                 continue  # sink already probed once
             nxt.extend(expand(cfg, hist, unsat))
         frontier = nxt
